@@ -64,7 +64,15 @@ pub fn fixed_base(ty: Ty, salt: u64, i: u64, max_depth: u32) -> Item {
     let mut r = Rng::new(crate::rng::mix(salt, i));
     let o = GenOpts { styled_prot: 0, built: false, max_depth };
     let v = gen::gen_mval(&mut r, ty, &o);
-    model::encode(&v)
+    let it = model::encode(&v);
+    // every other base has its top-level map entries in a scattered (non-canonical) wire order
+    match it {
+        Item::Map(mut m) if i % 2 == 1 => {
+            r.shuffle(&mut m);
+            Item::Map(m)
+        }
+        other => other,
+    }
 }
 
 /// the complete single-fault neighbourhood of base `i` of type `ty`, offered to `types`
